@@ -274,6 +274,37 @@ def rule_c(ck, u, eng):
         fold = 'upper'
     if not cmpseen:
         return ck.broken('C20.c', 'digit2int', cast.where(f), 'comparison with the lookup string not recognised')
+    # the search itself: index from 0, step +1, while index < BOUND, a match returns the index
+    bound = None
+    shape_bad = None
+    for p in ps:
+        if not p.loops:
+            continue
+        lmap = p.loops[-1][1]
+        idxs = [(k_, h, pre) for k_, (h, pre) in lmap.items()]
+        if len(idxs) != 1:
+            shape_bad = 'search loop carries %d variables' % len(idxs)
+            continue
+        k_, h, pre = idxs[0]
+        if pre != C(0):
+            shape_bad = 'search starts at index %s' % (fmt(pre) if pre else '?')
+        for c in p.cond_terms():
+            if c[0] == 'cmp' and c[1] == '<' and c[2] == h and sym.is_c(c[3]):
+                bound = c[3][1] if bound is None else min(bound, c[3][1])
+            if c[0] == 'cmp' and c[1] == '<=' and c[2] == h and sym.is_c(c[3]):
+                bound = c[3][1] + 1 if bound is None else min(bound, c[3][1] + 1)
+        if p.end == 'loopback':
+            d = L(p.mem.get(k_, h)) - L(h)
+            if not (d.is_const() and d.c == 1):
+                shape_bad = 'search index moves by %s' % d
+        if p.end == 'return' and any(c[0] == 'cmp' and c[1] == '==' and 'digits' in fmt(c) for c in p.cond_terms()):
+            if strip(p.ret) != h:
+                shape_bad = 'a match returns %s, not the index' % fmt(p.ret)
+    if shape_bad or bound is None:
+        return ck.broken('C20.c', 'digit2int', cast.where(f), shape_bad or 'search bound not recognised')
+    if bound > len(lookup) + 1:
+        ck.violation('C20.c', 'digit2int:bound', cast.where(f), 'the search reads digits[%d], the lookup string has %d characters' % (bound - 1, len(lookup)))
+    lookup = lookup[:bound]
     sets = {'isdigit': '0123456789', 'isxdigit': '0123456789abcdefABCDEF'}
     f2 = None
     nsite = 0
@@ -468,6 +499,23 @@ def rule_e(ck, u):
             bad = '%s is decided by %s' % (nm, lst[:2])
     if E['LOOKING_AT_UNKNOWN'] not in cls:
         bad = bad or 'no UNKNOWN classification'
+    # exactness of the length guards: the shortest literal of each class is still recognised when it ends the input
+    need = {E['LOOKING_AT_INT_HEX']: 3, E['LOOKING_AT_PAREN_OPEN']: 1, E['LOOKING_AT_PAREN_CLOSE']: 1, E['LOOKING_AT_INT_DEC']: 1, E['LOOKING_AT_SYMBOL']: 1}
+    reach = {}
+    for p in ps:
+        if p.ret is None or p.ret[0] != 'c' or p.ret[1] not in need:
+            continue
+        k = need[p.ret[1]]
+        lin_conds = [c for c in p.cond_terms() if c[0] == 'cmp' and not any(t[0] in ('i', 'call') for t in sym.subterms(c))]
+        ok_ = eng.feasible(lin_conds + [('cmp', '==', N, sym.add(i_, C(k)))])
+        r_ = reach.setdefault(p.ret[1], [False, []])
+        r_[0] = r_[0] or ok_
+        r_[1].append('; '.join(fmt(c) for c in lin_conds))
+    for kv, (ok_, guards) in sorted(reach.items()):
+        if not ok_:
+            nm = [n_ for n_, v in E.items() if v == kv and n_.startswith('LOOKING_AT')][0]
+            bad = bad or ('%s is not recognised when only %d character(s) are left before the end of the input (guards: %s)'
+                          % (nm, need[kv], ' | '.join(sorted(set(guards)))))
     ck.verdict(bad is None, 'C20.e', 'looking_at:table', cast.where(u.fn('looking_at')),
                '"#x"+hex digit -> hex integer, "(" / ")" -> list delimiters, digit -> decimal integer, symbol-initial character -> symbol, anything else unknown' if bad is None else bad)
     # sx_parse_token: one arm per classification
@@ -678,6 +726,7 @@ def rule_f(ck, u):
     ck.analysed['paths'] += sum(len(v) for v in PL.values())
     P, LIST = set(), set()          # summaries of sx_parse_ ; of sx_parse_list: (status, node kind, how, where)
     elements = set()                # origins of successful values that become list elements
+    positions = []                  # (where, reported position - position of the ')' that ended the list)
 
     def results_of(t):
         if t[1] == 'sx_parse_token':
@@ -729,6 +778,13 @@ def rule_f(ck, u):
                         origin = 'close'
                 st = f['status'][1] if sym.is_c(f.get('status', C(SUCCESS))) else None
                 nk = node_kind(f.get('node', C(0)), p)
+                if origin == 'close' and st == SUCCESS:
+                    at = [strip(c[2])[2][2] for c in p.cond_terms() if c[0] == 'cmp' and c[1] == '==' and c[3] == C(CLOSE)
+                          and strip(c[2])[0] == 'call' and strip(c[2])[1] == 'looking_at']
+                    at += [strip(c[2])[2] for c in p.cond_terms() if c[0] == 'cmp' and c[1] == '==' and c[3] == C(ord(')'))
+                           and strip(c[2])[0] == 'i']
+                    d = (L(f['position']) - L(at[0])) if at and 'position' in f else None
+                    positions.append((w, d))
                 LIST.add((st, nk, 'terminator:%s' % origin if st == SUCCESS else 'error', w))
                 continue
             X = car[0].result
@@ -757,6 +813,11 @@ def rule_f(ck, u):
                'the only successful return of sx_parse_list that ends a list is taken on a ")" token' if not bad else
                'the end-of-list return is also taken for a value of origin "%s": a complete nested "()" (value: SUCCESS, empty list) is indistinguishable '
                'from the ")" token and ends the enclosing list, e.g. "(a () b)" reads as (a)' % bad[0][0].split(':')[1])
+    badp = [(w, d) for w, d in positions if d is None or not (d.is_const() and d.c == 1)]
+    ck.verdict(bool(positions) and not badp, 'C20.f', 'sx_parse_list:end-position', badp[0][0] if badp else where_list,
+               'a finished list reports the position just past its ")"' if positions and not badp else
+               ('the position reported for a finished list is the position of its ")" %s, expected + 1' % ('+ %s' % badp[0][1] if badp and badp[0][1] is not None else '(not recognised)')
+                if positions else 'no path ends a list on a ")" token'))
     # ---- F2: every kind of expression is accepted as a list element ---------------------------------------
     need = {'int', 'hex', 'sym', 'list/empty', 'list/pair'}
     miss = sorted(need - elements)
@@ -774,6 +835,10 @@ def rule_f(ck, u):
     ck.verdict(not stray, 'C20.f', 'sx_parse:stray-close', cast.where(u.fn('sx_parse')),
                'a ")" that closes nothing is reported as an error' if not stray else
                'input beginning with ")" is returned as SUCCESS with an empty-list tree (the tokenizer\'s end-of-list value escapes to the top level)')
+    notree = [sm for sm in TOP if sm[1] == SUCCESS and sm[2] == 'null']
+    ck.verdict(not notree, 'C20.f', 'sx_parse:success-without-tree', cast.where(u.fn('sx_parse')),
+               'SUCCESS is never returned without a tree (empty or exhausted input is an error status)' if not notree else
+               'input of origin "%s" (nothing but whitespace up to the end of the input) is returned as SUCCESS with no tree' % notree[0][0])
     leak = [sm for sm in TOP if sm[1] not in (SUCCESS, FOUND) and sm[2] != 'null']
     ck.verdict(not leak, 'C20.f', 'sx_parse:error-without-tree', cast.where(u.fn('sx_parse')),
                'every error summary of sx_parse carries no tree' if not leak else 'error status %d returned together with a %s node' % (leak[0][1], leak[0][2]))
@@ -865,6 +930,12 @@ def rule_g(ck, u):
                         pa, ca = LEN_BOUNDED[e.name]
                         if ai == pa and not eng.entails(facts, off + L(e.args[ca]) - L(Nx)):
                             bad = '%s at %s reads %s octets from %s, not provably inside the %s octets of the input' % (e.name, e.where(), fmt(e.args[ca]), fmt(a), ln)
+                        dst = strip(e.args[0])
+                        if e.name in ('memcpy', 'memmove') and ai == 1 and dst[0] == 'call' and dst[1] == 'calloc':
+                            room = sym.mk_bin('*', dst[2][0], dst[2][1]) if not sym.is_c(dst[2][1], 1) else dst[2][0]
+                            if not eng.entails(facts, L(e.args[ca]) + 1 - L(room)):
+                                bad = ('%s at %s copies %s octets of text into a block of %s: no room is proved for the terminating NUL '
+                                       '(the symbol is later read as a C string)' % (e.name, e.where(), fmt(e.args[ca]), fmt(room)))
                     elif e.name in WIN:
                         cpi, cli = WIN[e.name][0], WIN[e.name][1]
                         if ai != cpi:
